@@ -47,7 +47,8 @@ def fEnv (truth : List (Int × Int × Nat)) (entries : List FEntry) : Env Nat :=
       | none => false
     resident := (entries.flatMap (·.resident)).eraseDups }
 
-def outNats (xs : List Nat) : String := "[" ++ ".".intercalate ((xs.mergeSort (· ≤ ·)).map toString) ++ "]"
+/-- Answers are compared as sets (DESIGN.md §6): sorted, duplicates removed. -/
+def outNats (xs : List Nat) : String := "[" ++ ".".intercalate ((xs.eraseDups.mergeSort (· ≤ ·)).map toString) ++ "]"
 
 /-- `c13model` / `c19model`: replay an abstract trace sequentially on the Prog model (`runQuery`), with
     the lists in `closed` closed before entry `closeAt` (never if negative).  Prints, for every entry,
